@@ -73,6 +73,37 @@ def _independent_view(g):
     return _View(g._vertices, es)
 
 
+def prehistory(rng, g, p=0.5):
+    """Something that happened to this Graph OBJECT before the run that is being judged, and that must not matter: an optimizer call under
+    ANOTHER fixed set (and fix_first_pose), or chi2 queried at other poses -- after which every pose (a fresh copy) and every fixed flag is put
+    back.  Returns a label for the replay."""
+    if rng.random() > p:
+        return None
+    vs = g._vertices
+    poses0 = [v.pose.copy() for v in vs]
+    flags0 = [bool(v.fixed) for v in vs]
+    mode = rng.choice(['optimize_other_fixed_set', 'optimize_other_fixed_set', 'chi2_elsewhere'])
+    with warnings.catch_warnings(), np.errstate(all='ignore'):
+        warnings.simplefilter('ignore')
+        try:
+            if mode == 'optimize_other_fixed_set':
+                for v in vs:
+                    v.fixed = False
+                for v in rng.sample(vs, rng.randint(1, max(1, len(vs) // 2))):
+                    v.fixed = True
+                g.optimize(tol=0.0, max_iter=rng.randint(1, 2), fix_first_pose=rng.random() < 0.5, verbose=False)
+            else:
+                for v in vs:
+                    v.pose = v.pose + np.array([rng.gauss(0, 0.3) for _ in range(v.pose.COMPACT_DIMENSIONALITY)])
+                g.calc_chi2()
+        except Exception:  # noqa
+            pass
+    for v, p0, f0 in zip(vs, poses0, flags0):
+        v.pose = p0
+        v.fixed = f0
+    return mode
+
+
 def poses_close(a, b, atol):
     a, b = np.asarray(a, dtype=np.float64), np.asarray(b, dtype=np.float64)
     if len(a) == 7 and np.dot(a[3:], b[3:]) < 0:
@@ -113,7 +144,9 @@ def mixed_graph(rng, with_custom=True, fixed_mode='first'):
     rng.shuffle(es)
     for e in es:
         e.vertices = None
+    listed = list(vs2)
     g2 = Graph(es, vs2)
+    g2._verif_listed = listed          # the vertex list as the caller passed it (fix_first_pose refers to ITS first element)
     if fixed_mode == 'first':
         ffp = True
     else:
@@ -143,6 +176,19 @@ def gauss_newton_step(seed, n):
             g = Graph(es, g._vertices)
         if ffp:
             g._vertices[0].fixed = True
+        hist = prehistory(rng, g, 0.35)
+        if rng.random() < 0.2:
+            # legal initial guesses that share storage: one pose object handed to several vertices, or several poses built from one array
+            grp = [v for v in g._vertices if type(v.pose) is type(g._vertices[-1].pose)]
+            if len(grp) >= 2:
+                if isinstance(grp[0].pose, (PoseR2, PoseR3)):
+                    arr = np.array(grp[0].pose, dtype=np.float64)
+                    for v in grp:
+                        v.pose = type(v.pose)(arr)
+                else:
+                    shared = grp[0].pose.copy()
+                    for v in grp:
+                        v.pose = shared
         if rng.random() < 0.25:
             # very small (or very large) information: the Gauss-Newton step does not depend on a common scale of the information matrices
             sc_info = 10.0 ** rng.choice([-rng.uniform(9, 13), rng.uniform(6, 9)])
@@ -180,6 +226,34 @@ def gauss_newton_step(seed, n):
                     bad = True
                     break
             if bad:
+                break
+    # a dead-reckoned chain of exactly representable poses (every odometry edge has EXACTLY zero error, so interior gradient blocks are exactly
+    # zero) plus one inconsistent loop closure: the interior vertices must move all the same
+    for i in range(max(2, n // 10)):
+        kind = rng.choice(['R2', 'SE2'])
+        nv = rng.randint(4, 7)
+        P = PoseR2 if kind == 'R2' else PoseSE2
+        mk = (lambda x, y: PoseR2([float(x), float(y)])) if kind == 'R2' else (lambda x, y: PoseSE2([float(x), float(y)], 0.0))
+        steps = [(rng.randint(1, 3), rng.randint(-2, 2)) for _ in range(nv - 1)]
+        pos = [(0, 0)]
+        for dx_, dy_ in steps:
+            pos.append((pos[-1][0] + dx_, pos[-1][1] + dy_))
+        vs = [Vertex(k, mk(*pos[k])) for k in range(nv)]
+        d = 2 if kind == 'R2' else 3
+        es = [EdgeOdometry([k, k + 1], oe.rand_spd(rng, d, 10.0), mk(*steps[k])) for k in range(nv - 1)]
+        es.append(EdgeOdometry([0, nv - 1], oe.rand_spd(rng, d, 10.0), mk(pos[-1][0] + 1, pos[-1][1] - 1)))      # the loop closure disagrees
+        g = Graph(es, vs)
+        vs[0].fixed = True
+        H, b, off = dense_system(g)
+        dx = np.linalg.solve(H, -b)
+        expected = [np.array(v.pose) if v.fixed else np.array(v.pose + dx[off[k]:off[k + 1]]) for k, v in enumerate(vs)]
+        g.optimize(tol=0.0, max_iter=1, fix_first_pose=False, verbose=False)
+        evals += 1
+        for k, v in enumerate(vs):
+            if not poses_close(expected[k], v.pose, 1e-9 * (1 + float(np.abs(expected[k]).max()))):
+                fails.append({'law': 'exact dead-reckoned %s chain with one inconsistent loop closure: vertex %d after one iteration is %s, the Gauss-Newton step gives %s '
+                                     '(its gradient block is exactly zero, its increment is not)' % (kind, k, np.array(v.pose).tolist(), expected[k].tolist()),
+                              'seed': seed, 'case': i, 'edge': 'graph', 'positions': pos, 'steps': steps})
                 break
     return evals, fails
 
@@ -232,6 +306,9 @@ def fixed_vertices(seed, n):
                 if not v.fixed and isinstance(v.pose, (PoseSE2, PoseSE3)):
                     d = np.zeros(v.pose.COMPACT_DIMENSIONALITY); d[-1] = 0.9
                     v.pose = v.pose + d
+        if mode in ('wellposed', 'station', 'shared_start') and mode != 'shared_start':
+            prehistory(rng, g, 0.3)
+        listed = getattr(g, '_verif_listed', None)
         flags0 = [bool(v.fixed) for v in vs]
         before = [np.array(v.pose).copy() for v in vs]
         iters = rng.randint(1, 20)
@@ -274,6 +351,11 @@ def fixed_vertices(seed, n):
         if flags1 != want:
             fails.append({'law': 'fixed flags after optimize(fix_first_pose=%s): %s, expected %s' % (ffp, flags1, want), 'seed': seed, 'case': i, 'edge': 'graph'})
             continue
+        if ffp and listed is not None and len(listed) == len(vs) and mode not in ('isolated_fixed', 'station') and not listed[0].fixed:
+            fails.append({'law': 'fix_first_pose=True did not fix the FIRST vertex of the list the graph was built from (a %s); the graph fixed another vertex'
+                                 % type(listed[0].pose).__name__, 'seed': seed, 'case': i, 'edge': 'graph',
+                          'listed_kinds': [type(v.pose).__name__ for v in listed]})
+            continue
         for k, v in enumerate(vs):
             if want[k] and np.array(v.pose).tobytes() != before[k].tobytes():
                 fails.append({'law': 'a fixed vertex moved (mode %s, %d iterations)' % (mode, iters), 'seed': seed, 'case': i, 'vertex_position': k,
@@ -299,6 +381,10 @@ def fixed_vertices(seed, n):
         g.optimize(tol=0.0, max_iter=1, fix_first_pose=False, verbose=False)
         rel = fixed_now[-1]
         vs[rel].fixed = False
+        if rng.random() < 0.5:          # ... and another vertex, free so far, is frozen where it is
+            free_now = [k for k, v in enumerate(vs) if not v.fixed and k != rel]
+            if len(free_now) >= 2:
+                vs[rng.choice(free_now)].fixed = True
         for v in vs:       # perturb, so that the released vertex has something to do
             if not v.fixed:
                 d = np.array([rng.gauss(0, .05) for _ in range(v.pose.COMPACT_DIMENSIONALITY)])
@@ -634,6 +720,12 @@ def linear_optimum(seed, n):
             sol, *_ = np.linalg.lstsq(A[:, free], rhs, rcond=None)
             xs[free] = sol
         chi_opt = float(np.sum((A @ xs - y) ** 2))
+        hist = prehistory(rng, g, 0.3)
+        info_pow = rng.choice([0, 0, 0, -40, -50, 30])
+        if info_pow:       # the optimum does not depend on a common scale of the information matrices; chi2 scales with it (exactly, for a power of two)
+            for e in es:
+                e.information = np.asarray(e.information, dtype=np.float64) * 2.0 ** info_pow
+            chi_opt *= 2.0 ** info_pow
         try:
             res = g.optimize(tol=1e-10, max_iter=10, fix_first_pose=False, verbose=False)
         except Exception as ex:  # noqa
@@ -644,9 +736,10 @@ def linear_optimum(seed, n):
         scale = 1.0 + np.abs(xs).max() + (sc if far else 0.0) * 1e-3
         if not np.allclose(got, xs, rtol=0, atol=1e-6 * scale):
             fails.append({'law': 'optimize() does not return the weighted least-squares optimum of a linear graph', 'seed': seed, 'case': i,
-                          'kind': kind, 'n_vertices': nv, 'n_edges': len(es), 'far_start': far, 'max_abs_diff': float(np.abs(got - xs).max()), 'edge': 'graph'})
+                          'kind': kind, 'n_vertices': nv, 'n_edges': len(es), 'far_start': far, 'max_abs_diff': float(np.abs(got - xs).max()), 'edge': 'graph',
+                          'information_scaled_by': '2^%d' % info_pow, 'history_of_the_graph_object': hist})
             continue
-        if not abs(res.final_chi2 - chi_opt) <= 1e-6 * (1 + chi_opt) + 1e-9 * scale ** 2 * (1e-6 if far else 1):
+        if not abs(res.final_chi2 - chi_opt) <= (1e-6 * (1 + chi_opt / 2.0 ** info_pow) + 1e-9 * scale ** 2 * (1e-6 if far else 1)) * 2.0 ** info_pow:
             fails.append({'law': 'reported final_chi2 %r differs from the chi2 of the optimum %r' % (res.final_chi2, chi_opt), 'seed': seed, 'case': i, 'edge': 'graph'})
     return evals, fails
 
@@ -873,6 +966,22 @@ def local_convergence(seed, n, scale=1.0):
                 fresh.append(e2)
             Graph(fresh, tv).calc_chi2()
             g = Graph(fresh, list(g._vertices))
+        prehistory(rng, g, 0.2)
+        if rng.random() < 0.2:
+            # "pose 0 is the origin, so pose 1 starts at the first odometry measurement": a vertex whose initial pose IS the estimate object of an
+            # edge leaving the first vertex (only when that guess is inside the neighbourhood, i.e. the first vertex is close to the identity)
+            g = oe.transform_graph(g, g._vertices[0].pose.inverse, kind)       # same problem seen from the first pose (C07)
+            v0 = g._vertices[0]
+            ident = type(v0.pose).identity()
+            if float(np.abs(np.asarray(v0.pose) - np.asarray(ident)).max()) < 1e-9 or (kind == 'SE3' and float(np.abs(np.asarray(v0.pose) + np.asarray(ident))[3:].max()) < 1e-9):
+                for e in g._edges:
+                    if isinstance(e, EdgeOdometry) and e.vertex_ids[0] == v0.id and type(e.estimate) is type(v0.pose):
+                        [w for w in g._vertices if w.id == e.vertex_ids[1]][0].pose = e.estimate
+                        break
+        info_pow = rng.choice([0, 0, 0, 0, -30, -40])
+        if info_pow:
+            for e in g._edges:
+                e.information = np.asarray(e.information, dtype=np.float64) * 2.0 ** info_pow
         c0 = _independent_view(g).calc_chi2()
         staged = (not reuse) and rng.random() < 0.2
         try:
@@ -890,7 +999,8 @@ def local_convergence(seed, n, scale=1.0):
         evals += 1
         g = _independent_view(g)
         c1 = g.calc_chi2()
-        if not c1 <= c0 * (1 + 1e-12) + 1e-18:
+        isc = 2.0 ** info_pow          # absolute floors scale with the information
+        if not c1 <= c0 * (1 + 1e-12) + 1e-18 * isc:
             fails.append({'law': 'final chi2 %r exceeds initial chi2 %r' % (c1, c0), 'seed': seed, 'case': i, 'kind': kind, 'edge': 'graph'})
             continue
         H, b, off = dense_system(g)
@@ -898,7 +1008,7 @@ def local_convergence(seed, n, scale=1.0):
             dec = float(b @ np.linalg.solve(H, b))
         except np.linalg.LinAlgError:
             continue
-        if not dec <= 10.0 * tol * (c1 + 1e-9) + 1e-12:
+        if not dec <= 10.0 * tol * (c1 + 1e-9 * isc) + 1e-12 * isc:
             fails.append({'law': 'Newton decrement %g of the independent model exceeds 10*tol*chi2 = %g' % (dec, 10 * tol * c1), 'seed': seed, 'case': i,
                           'kind': kind, 'nv': nv, 'tol': tol, 'chi2': c1, 'edge': 'graph'})
             continue
